@@ -20,7 +20,7 @@ func init() { register(c12{}) }
 func (c12) Meta() core.Meta {
 	return core.Meta{
 		ID: "C12", Level: "exploration",
-		Rule:        "case i = f(seed,i): JSON/XML-shaped Map + 1..4 key pairs old:new. Old parts are plain/wildcard/indexed paths derived from the Map (values that are maps and lists are preferred: aliasing only matters then), new parts are dot-paths that are disjoint, share a prefix, are equal, or extend one another (n0 / n0.sub); 1/6 of the cases carry a malformed pair (old:, :new, a:b:c, wildcard or index in new). Monitors: receiver fingerprint before == after for every pair list; for pair lists in which no new path equals or extends another the result equals the reference projection (ValuesForPath(old) as single value or list at each new path, empty olds skipped, nothing else); malformed pairs => error; j2x.JsonNewJson agrees. Non-trivial: >=2 pairs with non-empty old values; distinct by hash(map,pairs).",
+		Rule:        "case i = f(seed,i): JSON/XML-shaped Map + 1..4 key pairs old:new. Old parts are plain/wildcard/indexed paths derived from the Map (values that are maps and lists are preferred: aliasing only matters then), new parts are dot-paths that are disjoint, share a prefix, are equal, or extend one another (n0 / n0.sub), now and then with blank-edged segments, empty segments or a trailing dot; keys in 1/4 of the cases from the hostile alphabet (blank-edged names beside their twins, digit strings, '/'); 1/6 of the cases carry a malformed pair (old:, :new, a:b:c, wildcard or index in new). Monitors: receiver fingerprint before == after for every pair list; for pair lists in which no new path equals or extends another the result equals the reference projection (ValuesForPath(old) as single value or list at each new path, empty olds skipped, nothing else); malformed pairs => error; j2x.JsonNewJson agrees. Non-trivial: >=2 pairs with non-empty old values; distinct by hash(map,pairs).",
 		Assumptions: []string{"reference projection uses the C07 reference denotation of the old paths", "an empty-string pair argument is skipped (code comment; docs silent) and is not generated"},
 		Anchors:     []string{"Map.NewMap", "addNewVal", "j2x.JsonNewJson"},
 		Floors:      map[string]int64{"pairs:overlapping": 1000, "pairs:exact-content-checked": 3000, "old:container-valued": 2000, "old:multi-valued": 300, "malformed": 1000, "newpath:shared-prefix": 300},
@@ -55,7 +55,8 @@ func c12place(n map[string]interface{}, path []string, v interface{}) {
 
 func (c12) Case(c *core.Ctx) {
 	r := c.R
-	g := jv.GenOpt{Keys: c07keys, MaxFan: 3, WideProb: 40, EmptyConts: true, Nulls: true, Scalars: c07scalar}.Fresh()
+	keys := keyAlphabet(r, c07keys)
+	g := jv.GenOpt{Keys: keys, MaxFan: 3, WideProb: 40, EmptyConts: true, Nulls: true, Scalars: c07scalar}.Fresh()
 	root := jv.M{"doc": g.Value(r, 1+r.Intn(5), false)}
 	if r.Intn(4) == 0 {
 		root = g.Map(r, 1+r.Intn(4))
@@ -73,7 +74,7 @@ func (c12) Case(c *core.Ctx) {
 	var specs []string
 	overlapping, sharedPrefix := false, false
 	for j := 0; j < np; j++ {
-		segs := genPath(r, root, append([]string{"doc"}, c07keys...), r.Intn(3) == 0, r.Intn(3) == 0)
+		segs := genPath(r, root, append([]string{"doc"}, keys...), r.Intn(3) == 0, r.Intn(3) == 0)
 		for i := range segs {
 			if segs[i].name == "*" {
 				segs[i].idx = -1
@@ -95,7 +96,12 @@ func (c12) Case(c *core.Ctx) {
 			segs = segs[:len(segs)-1]
 		}
 		var newp []string
-		switch r.Intn(6) {
+		switch r.Intn(7) {
+		case 6:
+			// new paths are split at '.' exactly as ValuesForPath reads them: blanks are part of a key, an empty segment
+			// is the key "" (only one trailing dot is dropped)
+			newp = [][]string{{"n0 ", fmt.Sprintf("s%d", j)}, {fmt.Sprintf(" n%d", j)}, {"e", "", fmt.Sprintf("s%d", j)}, {"", fmt.Sprintf("lead%d", j)}, {fmt.Sprintf("t%d", j), ""}, {fmt.Sprintf("n%d\u00a0", j)}}[r.Intn(6)]
+			c.Count("newpath:blank-edge-or-empty-segment")
 		case 0:
 			newp = []string{"n0", fmt.Sprintf("sub%d", j)}
 		case 1:
@@ -109,6 +115,11 @@ func (c12) Case(c *core.Ctx) {
 		}
 		p := pair{old: segs, newp: newp}
 		p.spec = pathString(segs) + ":" + strings.Join(newp, ".")
+		if newp[len(newp)-1] == "" {
+			p.spec += "." // one trailing dot is dropped: a final "" key needs two
+		} else if r.Intn(12) == 0 {
+			p.spec += "."
+		}
 		if numIndexed(segs) == 0 && !hasWildcard(segs) && r.Intn(5) == 0 {
 			// shorthand "old" == "old:old"
 			p.spec = pathString(segs)
